@@ -96,7 +96,7 @@ def oracle(case, impl):
     us, ua, uport = case[5].split(":")[:3]
     secure = us == "1"
     want_port = int(uport) if uport != "-" else (5061 if secure else 5060)
-    addrs = ["10.9.9.9", "10.8.8.8", "[2001:db8::9]"]
+    addrs = ["10.9.9.9", "10.255.8.255", "[2001:db8::9]"]
     if impl.startswith("ERR"):
         # must fail only if nothing qualifies
         unm = [u.split(":") for u in case[2].split(",") if u]
